@@ -142,6 +142,12 @@ def _step(c, m, srv, name, key, nr, expire, delta, casmode, seen, step):
         mv = m.value(k)
         if (None if sv is None else sv[0]) != mv:
             return "after step %d %s(%s, noreply=%r) the server holds %r under %s, the model %r" % (step, name, key, nr, sv, k, mv)
+        if sv is not None:
+            s_exp = srv.items[PREFIX + k.encode()].expire_at
+            m_exp = m.d[k].expire_at
+            if s_exp != m_exp:
+                return "after step %d %s(%s, expire=%r) the item %s expires at %r on the server, the model says %r" % (
+                    step, name, key, expire, k, s_exp, m_exp)
     return None
 
 
